@@ -83,6 +83,54 @@ def byte_addr(v):
     return None
 
 
+def _truth_of_key(ctx, key):
+    """truth value the path has recorded for the condition with this key (fact, or bounds of a 0/1 term); None if unknown"""
+    if key in ctx.facts:
+        return bool(ctx.facts[key])
+    b = ctx.bounds.get(key)
+    if b:
+        if b[0] == b[1]:
+            return b[0] != 0
+        if b[0] > 0 or b[1] < 0:
+            return True
+    if 0 in ctx.neq.get(key, ()):
+        return True
+    return None
+
+
+def _truth_wrapped(ctx, key):
+    """also through `cond != 0` / `cond == 0` wrappers (a comparison stored in a bool variable)"""
+    t = _truth_of_key(ctx, key)
+    if t is not None:
+        return t
+    t = _truth_wrapped_once(ctx, ('term', '!=', key, 0))
+    if t is not None:
+        return t
+    t = _truth_wrapped_once(ctx, ('term', '==', key, 0))
+    if t is not None:
+        return not t
+    return None
+
+
+def _truth_wrapped_once(ctx, key):
+    return _truth_of_key(ctx, key)
+
+
+def fact_eq(ctx, v, c):
+    """does the path know v == c (True) / v != c (False)? None if not"""
+    k = vkey(v)
+    for op, pol in (('==', True), ('!=', False)):
+        for key in (('term', op, k, c), ('term', op, c, k)):
+            t = _truth_wrapped(ctx, key)
+            if t is not None:
+                return t if pol else (not t)
+    if c == 0:
+        t = _truth_wrapped(ctx, k)        # the value itself used as a condition
+        if t is not None:
+            return not t
+    return None
+
+
 def known_byte(ctx, v):
     """(value) when the path pins v to one constant; None otherwise"""
     if isinstance(v, bool):
@@ -93,6 +141,9 @@ def known_byte(ctx, v):
         b = ctx.bounds.get(vkey(v))
         if b and b[0] == b[1]:
             return b[0]
+        for c in (0, 10, 13, 92):
+            if fact_eq(ctx, v, c) is True:
+                return c
     return None
 
 
@@ -108,7 +159,26 @@ def may_be(ctx, v, c):
             return False
         if c in ctx.neq.get(key, ()):
             return False
+        if fact_eq(ctx, v, c) is False:
+            return False
     return True
+
+
+def contradictory(ctx, v):
+    """the path claims two different constant values for v (the engine did not see the contradiction): infeasible path"""
+    vals = set()
+    if is_opaque(v):
+        b = ctx.bounds.get(vkey(v))
+        if b and b[0] == b[1]:
+            vals.add(b[0])
+        for c in (0, 10, 13, 92):
+            t = fact_eq(ctx, v, c)
+            if t is True:
+                vals.add(c)
+        for c in list(vals):
+            if fact_eq(ctx, v, c) is False or c in ctx.neq.get(vkey(v), ()):
+                return True
+    return len(vals) > 1
 
 
 def isnl(ctx, v):
@@ -277,6 +347,34 @@ class CutInterp(Interp):
                 return BufPlace(p, m.line)
             raise Unsupported('deref of %r at %s:%d' % (p, self.unit.name, m.line))
         return Interp.place(self, n, env)
+
+    # ---- switch on an opaque value: the default arm excludes every case value -----------
+    def pick_arm(self, v, arms, cond):
+        ctx = self.ctx
+        vv = self.settle(v) if isinstance(v, View) else v
+        if not is_opaque(vv):
+            return Interp.pick_arm(self, v, arms, cond)
+        before = known_byte(ctx, vv)
+        idx = Interp.pick_arm(self, vv, arms, cond)
+        allvals = [x for (_, vals, _) in arms for x in vals]
+        chosen_vals = [x for (i, vals, _) in arms if i == idx for x in vals]
+        now = known_byte(ctx, vv)
+        if now is not None and now in chosen_vals and before is None:
+            return idx                      # a case arm was chosen
+        if before is not None:
+            # value already fixed by the path: only the matching arm (or default) is feasible
+            want = None
+            for (i, vals, is_def) in arms:
+                if before in vals:
+                    want = i
+            if want is None:
+                want = next((i for (i, vals, is_def) in arms if is_def), None)
+            if idx != want:
+                raise Infeasible('switch arm contradicts the path')
+            return idx
+        # default (or no arm): v differs from every case label
+        ctx.neq.setdefault(vkey(vv), set()).update(allvals)
+        return idx
 
     # ---- loops ------------------------------------------------------------------------
     def exec_loop(self, s, _unused, cond, inc, body, env):
